@@ -248,6 +248,13 @@ def main():
         "wall_s": round(time.time() - t0, 2),
         "violations": len(violations),
     }
+    # ---- thorough tier: the checker checks itself - the property-breaking changes kept under seeded/ must still be reported
+    selftest_failed = []
+    if a.tier == "thorough" and not violations and os.environ.get("VERIF_SELFTEST") != "1":
+        st_rep = checker_self_test(pid)
+        ev["coverage"]["checker_self_test"] = st_rep
+        selftest_failed = [r["change"] for r in st_rep if r["applied"] and not r["detected"]]
+        ev["wall_s"] = round(time.time() - t0, 2)
     # self-tests on scratch copies (selftest/*.sh) set VERIF_OUT so that they never overwrite the evidence of the real tree
     outdir = os.environ.get("VERIF_OUT", HERE)
     os.makedirs(os.path.join(outdir, "evidence"), exist_ok=True)
@@ -268,7 +275,37 @@ def main():
     if hres is not None and "error" in hres:
         print(f"checker broken: harness error: {hres['error']}")
         sys.exit(3)
+    if selftest_failed:
+        print(f"checker broken: seeded property-breaking change(s) no longer detected: {', '.join(selftest_failed)}")
+        sys.exit(3)
     sys.exit(0)
+
+
+def checker_self_test(pid):
+    """apply every seeded/<pid>-m*/patch.diff to a scratch copy of the source tree under test and run the quick check there: it must
+    report a violation (exit 1).  A patch that no longer applies to the current tree is skipped (reported as not applied)."""
+    import glob, shutil, tempfile
+    from concurrent.futures import ThreadPoolExecutor
+    src = os.environ.get("VERIF_REPO_SRC", "/repo/src")
+
+    def one(pdir):
+        name = os.path.basename(pdir)
+        d = tempfile.mkdtemp(prefix="pyvc-selftest.")
+        try:
+            shutil.copytree(src, os.path.join(d, "repo", "src"))
+            p = subprocess.run(["patch", "-p1", "-s", "-i", os.path.join(pdir, "patch.diff")], cwd=os.path.join(d, "repo"),
+                               capture_output=True, text=True)
+            if p.returncode != 0:
+                return {"change": name, "applied": False, "detected": False}
+            env = dict(os.environ, VERIF_REPO_SRC=os.path.join(d, "repo", "src"), VERIF_OUT=os.path.join(d, "out"), VERIF_SELFTEST="1")
+            r = subprocess.run([sys.executable, os.path.join(HERE, "check.py"), pid, "--tier", "quick"], env=env, capture_output=True,
+                               text=True, cwd=HERE)
+            return {"change": name, "applied": True, "detected": r.returncode == 1, "exit": r.returncode}
+        finally:
+            shutil.rmtree(d, ignore_errors=True)
+    dirs = sorted(glob.glob(os.path.join(HERE, "seeded", pid + "-m*")))
+    with ThreadPoolExecutor(2) as ex:
+        return list(ex.map(one, dirs))
 
 
 def harness_known(hres, open_findings) -> bool:
